@@ -15,6 +15,7 @@ import PsutilModel.Proofs.C03Gone
 import PsutilModel.Proofs.C03Deny
 import PsutilModel.Proofs.C03Walk
 import PsutilModel.Proofs.C03Hist
+import PsutilModel.Proofs.C03Fuel
 import PsutilModel.Model.C03Gen
 namespace Psutil.C03
 open Spec
@@ -283,6 +284,33 @@ theorem C03_safe_children_recursive (o : Obj) : MethodOK o "children_recursive" 
 theorem C03_children_recursive_any_fuel (o : Obj) (fuel : Nat) :
     Safe o.pid (Fe.childrenRecFuel cfg o (some fuel)) := by
   rw [cfg_good]; exact safe_of_tri (childrenRecFuel_safe _ o (some fuel))
+
+/-- **fuel sufficiency, children(recursive=True)** (was argued, now proved): the `while stack` loop pops at most
+    `len(map) + 1` times — every map entry is pushed at most once, when its parent is marked seen — for ANY ppid
+    map (cycles, self-parents, duplicates). Hence any fuel ≥ number of listed PIDs + 1 yields literally the same
+    computation (result AND final state) as the model's default: the bound is invisible, the fuelled walk is the
+    Python loop, and `C03_safe_children_recursive` speaks about it without a fuel hypothesis -/
+theorem C03_children_recursive_fuel_sufficient (o : Obj) (fuel : Nat) (c : Ctx) (s : St)
+    (hf : c.w.procs.length + 1 ≤ fuel) :
+    Fe.childrenRecFuel cfg o (some fuel) c s = Fe.childrenRec cfg o c s :=
+  childrenRecFuel_sufficient cfg o fuel c s hf
+
+/-- … at the level of the loop itself: for every map, start state and extra fuel -/
+theorem C03_children_walk_fuel_invisible (o : Obj) (pm : List (Nat × Nat)) (extra : Nat) (c : Ctx) (s : St) :
+    Fe.childrenRecWalk cfg o (pm.length + 1 + extra) pm [o.pid] [] [] c s
+      = Fe.childrenRecWalk cfg o (pm.length + 1) pm [o.pid] [] [] c s := by
+  have hu : unseenEntries pm [] ≤ pm.length := List.length_filter_le _ _
+  exact childrenRecWalk_fuel cfg o pm _ _ _ _ _ c s (by simp only [List.length_cons, List.length_nil]; omega)
+    (by simp only [List.length_cons, List.length_nil]; omega)
+
+/-- **fuel sufficiency, parents()**: every iteration of the `while` loop adds to `seen` a pid that is LISTED (the
+    object `proc.parent()` returns exists only after a successful read of /proc/<ppid>/stat) and not yet seen, so
+    there are at most #listed iterations, whatever the ppid links (cycles included) and whatever handler list
+    surrounds `proc.parent()`; any fuel ≥ number of listed PIDs + 1 yields the same computation as the default -/
+theorem C03_parents_fuel_sufficient (catchL : List String) (o : Obj) (fuel : Nat) (c : Ctx) (s : St)
+    (hf : c.w.procs.length + 1 ≤ fuel) :
+    Fe.parentsFuel cfg catchL o (some fuel) c s = Fe.parentsFuel cfg catchL o none c s :=
+  parentsFuel_sufficient cfg catchL o fuel c s hf
 
 /-- connections(): the deprecated alias (warns, then calls net_connections()) -/
 theorem C03_safe_connections (o : Obj) : MethodOK o "connections" := by
